@@ -41,7 +41,7 @@ def flatten(built, name, t, v, delim='.', index_of=None, omit_single_index=False
     def members(t):
         t = _strip(t)
         if t[0] == 'a':
-            return t[1]
+            return _single(t[1]) if t[1][0] in ('p', 'c', 'e') else t[1]
         if validity.is_multi(t):
             return _single(t)
         return None
@@ -127,7 +127,7 @@ def unflatten(built, argspecs, pairs, delim='.', strict_arrays=False):
     def members(t):
         t = _strip(t)
         if t[0] == 'a':
-            return t[1]
+            return _single(t[1]) if t[1][0] in ('p', 'c', 'e') else t[1]
         if validity.is_multi(t):
             return _single(t)
         return None
